@@ -481,3 +481,34 @@ def case_cast_cast():
 
 
 CASES["cast_cast"] = case_cast_cast
+
+
+def _ort_shape(m, x):
+    import onnxruntime as ort
+    so = ort.SessionOptions()
+    so.log_severity_level = 4
+    try:
+        s = ort.InferenceSession(m.SerializeToString(), so, providers=["CPUExecutionProvider"])
+        return tuple(s.run(None, {"x": x})[0].shape)
+    except Exception as e:  # noqa: BLE001
+        return "raises: " + str(e).split("Status Message:")[-1][-140:].strip()
+
+
+def case_flatten_zero():
+    """Flatten -> Reshape with dims of size 0 (onnxruntime: the onnx reference Flatten itself cannot handle size-0 tensors)."""
+    import onnxscript.rewriter
+    bad = 0
+    for shape, axis, feed in ((["N", "M"], 1, (0, 5)), ([0, "M", 0], 2, (0, 1, 0)), ([2, 3, 0], 2, (2, 3, 0)), (["N", "M"], 1, (2, 5))):
+        g = helper.make_graph([helper.make_node("Flatten", ["x"], ["y"], axis=axis)], "g", [vi("x", TensorProto.FLOAT, shape)], [vi("y", TensorProto.FLOAT, None)])
+        m = helper.make_model(g, opset_imports=[helper.make_opsetid("", 18)], ir_version=9)
+        new = onnxscript.rewriter.rewrite(m)
+        x = np.zeros(feed, np.float32)
+        a, b = _ort_shape(m, x), _ort_shape(new, x)
+        if a != b:
+            consts = [numpy_helper.to_array(i).tolist() for i in new.graph.initializer]
+            print(f"Flatten(x{shape}, axis={axis}) rewritten to {[n.op_type for n in new.graph.node]} {consts}; x of shape {feed}: original output shape {a}, rewritten {b}")
+            bad += 1
+    return bad
+
+
+CASES["flatten_zero"] = case_flatten_zero
